@@ -11,10 +11,11 @@ EXPLANATION = (
 )
 RULE = "one case = one (typestate, client call, oracle resolution) transition; distinct = reachable typestates"
 EXHAUSTIVE = True
-OWNED = {"C04.M1", "C04.M2", "C04.M3", "C04.M4", "C04.M5", "CRASH"}
+OWNED = {"C04.M1", "C04.M2", "C04.M3", "C04.M4", "C04.M5", "CRASH", "ISO"}
 
 
 def check(ctx):
+    ctx.rule("ISO", "calls on one instance never change the heap reachable from another instance of the same class")
     ctx.assume("python", "clock", "client")
     ctx.rule("C04.M1", "running => is_executing and current_state names a state")
     ctx.rule("C04.M2", "not running => is_executing False, current_state '', and done() was called if the machine was running before")
